@@ -177,6 +177,9 @@ def gen_c17(rng, oracle, index, tier="quick"):
             # named rows (the row index is part of what a round trip must reproduce)
             names = rng.sample(["R1", "R2", "R9", "R10", "rowA", "rowB", "0", "1"], len(rows))
             opts["index"] = [[nm, 0, rng.choice([1, 1, 3])] for nm in names]
+            if rng.random() < 0.35:
+                # rows labelled 0..n-1 like the default index, but with bounds of their own
+                opts["index"] = [[i, rng.choice([0, 1, -2]), rng.choice([1, 2, 4])] for i in range(len(rows))]
         g.emit({"op": "new", "h": ph, "recipe": ["rawpoly", rows, dt, vs, dpv] + ([opts] if opts else [])})
         if ph in g.handles:
             rawpolys.append(ph)
